@@ -259,7 +259,11 @@ CLAIMED = {
              "QuicConnection (after a real handshake; puppet peer with the real keys, two real endpoints on the adversarial network, "
              "0-RTT) replayed on the compiled model; wire oracle against the limits the sender had received.",
         note="Trusted: Lean kernel; standard axioms; harness/impl_flow.py (method wrapping for observation); hypotheses: transport "
-             "parameters do not reduce remembered limits (RFC 9000 7.4.1; not checked by the code), delivery reports only for "
+             "parameters do not reduce remembered limits (RFC 9000 7.4.1; not checked by the code: cannot be derived - the real "
+             "client lowers its limits when a server answers an accepted 0-RTT attempt with smaller parameters, open finding "
+             "C06-0rtt-lowered-parameters exhibited by ./check C06; derived instead: MAX_* frames never lower a limit over all op "
+             "sequences (remote_limits_monotone), the hypothesis is exactly 'transportParams does not lower' (tp_hypothesis_iff) and "
+             "it holds by itself without 0-RTT resumption (invariant_single_handshake)), delivery reports only for "
              "non-blocked streams and (ghost_invariant, emitted_within_stream_limit incl. FIN-only frames, retransmit_free) naming a "
              "frame emitted for that stream and not yet reported - the C10 hypothesis, under which every stream's send half is "
              "connected to the C10 sender invariant (AQ.Stream.SInv); the check validates it on every real trace. Documented "
@@ -277,7 +281,13 @@ CLAIMED = {
              "finished by FIN or RESET_STREAM and its send half finished, frames are ignored only for discarded streams "
              "(discard_only_when_receive_finished, ignored_only_after_discard; stop_stream / STOP_SENDING never release a stream); the enforced MAX_DATA, MAX_STREAMS (bidi/uni) and per-stream "
              "MAX_STREAM_DATA limits equal the largest value ever written (all three at run level: enforced_eq_advertised, "
-             "streams_enforced_eq_advertised, stream_enforced_eq_advertised), reassembly bytes <= limits, "
+             "streams_enforced_eq_advertised, stream_enforced_eq_advertised); for every state reachable from the constructed "
+             "connection, every stream and every op sequence, in terms of the ADVERTISED limits (largest value on the wire): unread "
+             "bytes per stream <= advertised MAX_STREAM_DATA, unread bytes over all streams <= advertised MAX_DATA, the complete "
+             "decision of STREAM / RESET_STREAM frames (STREAM_LIMIT / FLOW_CONTROL / FINAL_SIZE error or accepted, each iff) with "
+             "no state change besides the stream lookup on refusal, limits never decrease and are raised only with the frame "
+             "carrying the new value (stream_unread_within_advertised, connection_unread_within_advertised, "
+             "stream_frame_against_advertised, reset_frame_against_advertised, limits_never_decrease[_run]); reassembly bytes <= limits, "
              "CRYPTO buffering <= 524288, remote challenges <= 32, peer-CID stock and pending retirements bounded. Tie: call-level "
              "correspondence on real connections with offsets/lengths/final sizes at limit-1, limit, limit+1, 2^62-1 on all stream "
              "types interleaved with limit updates and unbounded repetition loops; all five stream-id frame types on never-opened ids "
